@@ -14,8 +14,14 @@ Init == \/ (Suite = "accessors" /\ \E names \in NameLists :
               /\ ~(sa = <<"m","a","x">> /\ sb = <<"s","u","m">>)       \* built-ins are emitted in a fixed order (sum before max)
               /\ c = [suite |-> "agg", names |-> <<k, a, b>>, cmap |-> AggNames(<<k>>, <<<<a, sa>>, <<b, sb>>>>),
                    first |-> <<1>>, sfx |-> <<sa, sb>>])
+        \/ (Suite = "agg2" /\ \E nk \in 1..2 : \E ks \in [1..nk -> {<<"a">>, <<"a", "2">>, NoNm}] :
+              \E c1 \in {<<"a">>, <<"v">>}, c2 \in {<<"a">>, <<"v">>}, ap \in {<<"a","_","s","u","m","2">>, <<"v","_","s","u","m","2">>, <<"a","2">>, <<"z","z">>, <<"k","e","y">>} :
+              c = [suite |-> "agg2", names |-> ks \o <<c1, c2, ap>>, nkeys |-> nk,
+                   cmap |-> UniqAll([i \in 1..nk |-> IF ks[i] = NoNm THEN KeyWord ELSE ks[i]]
+                                    \o <<AggBase(c1, <<"s","u","m">>), AggBase(c2, <<"s","u","m">>), ap>>, 1, {}, <<>>),
+                   first |-> <<1>>, sfx |-> <<>>])
 Next == UNCHANGED c
 Emit == PrintT(<<"CASE", ToJson(c)>>)
 Laws == c.suite = "accessors" => AccessorLaws(c.names)
-AggDistinct == c.suite = "agg" => \A i, j \in 1..Len(c.cmap) : i # j => c.cmap[i] # c.cmap[j]
+AggDistinct == c.suite \in {"agg", "agg2"} => \A i, j \in 1..Len(c.cmap) : i # j => c.cmap[i] # c.cmap[j]
 =============================================================================
